@@ -1737,7 +1737,7 @@ def to_awkward0(array, keep_layout=False):
                     + ak._util.exception_suffix(__file__)
                 )
             keys = layout.keys()
-            values = [recurse(x) for x in layout.contents]
+            values = [recurse(x[: len(layout)]) for x in layout.contents]
             pairs = collections.OrderedDict(zip(keys, values))
             out = awkward0.Table(pairs)
             if layout.istuple:
@@ -1816,7 +1816,7 @@ def to_awkward0(array, keep_layout=False):
             # mask, content, valid_when, length, lsb_order
             return awkward0.BitMaskedArray(
                 numpy.asarray(layout.mask),
-                recurse(layout.content),
+                recurse(layout.content[: len(layout)]),
                 maskedwhen=(not layout.valid_when),
                 lsborder=layout.lsb_order,
             )
